@@ -515,3 +515,38 @@ def set_memory_on_control_argument(r):
     if r.get("kind") != "reparse_failed" or "should not be annotated with memory" not in str(r.get("detail")):
         return False
     return bool(re.search(r":\s*(size|index|bool|stride)\s*@", r.get("q_src") or ""))
+
+
+# ---------------------------------------------------------------------------
+# C12
+
+
+def c12_two_symbols_same_name(r):
+    """facts keyed by printed name: the counterexample involves two distinct symbols with the same name"""
+    if r.get("op") != "simplify" or r.get("property") != "C12":
+        return False
+    names = [re.sub(r"_\d+$", "", k) for k in (r.get("assignment") or {})]
+    return len(names) != len(set(names))
+
+
+def c12_mod_dropped_with_negative_numerator(r):
+    """e % m replaced by e although e can be negative: values differ by a non-zero multiple of m"""
+    if r.get("op") != "simplify" or r.get("property") != "C12" or r.get("kind") != "expr":
+        return False
+    old, new = str(r.get("old")), str(r.get("new"))
+    if old.count("%") <= new.count("%"):
+        return False
+    ov, nv = r.get("old_value"), r.get("new_value")
+    if not isinstance(ov, int) or not isinstance(nv, int) or ov == nv:
+        return False
+    mods = [int(m) for m in re.findall(r"%\s*(\d+)", old)]
+    return any((ov - nv) % m == 0 for m in mods if m > 0)
+
+
+def c12_fact_survives_config_write(r):
+    """a fact Cfg.f == c learnt from a guard is still applied after Cfg.f has been written
+    (directly or by a callee): the counterexample involves two versions of the same field"""
+    if r.get("op") != "simplify" or r.get("property") != "C12":
+        return False
+    fields = [re.sub(r"_v\d+$", "", k) for k in (r.get("assignment") or {}) if k.startswith("cfg_")]
+    return len(fields) != len(set(fields))
